@@ -46,10 +46,11 @@ Section Vlog.
      encodeEntry; p.Len = plen; write(buf) *)
   Definition enc_of (st : vlog) (e : entry) : bytes :=
     encode_entry encrypted xs (iv_of (vl_max st)) (strip_txn e) (vl_woff st).
-  Definition put1 (st : vlog) (e : entry) : vlog * vptr :=
-    (mkVlog (fapp (vl_files st) (vl_max st) (enc_of st e)) (vl_max st)
-            (vl_woff st + N.of_nat (length (enc_of st e))) (vl_n st),
-     mkVptr (vl_max st) (N.of_nat (length (enc_of st e))) (vl_woff st)).
+  Definition put1_with (st : vlog) (enc : bytes) : vlog * vptr :=
+    (mkVlog (fapp (vl_files st) (vl_max st) enc) (vl_max st)
+            (vl_woff st + N.of_nat (length enc)) (vl_n st),
+     mkVptr (vl_max st) (N.of_nat (length enc)) (vl_woff st)).
+  Definition put1 (st : vlog) (e : entry) : vlog * vptr := put1_with st (enc_of st e).
 
   (* the loop over b.Entries; the bool is e.skipVlogAndSetThreshold(...) (Threshold.v) *)
   Fixpoint write_req (st : vlog) (es : list (entry * bool)) (written : N) : vlog * list vptr * N :=
